@@ -49,6 +49,19 @@ def gen(rng, tier, i):
         a = {rng.choice(["hashBy", "hash"]): key[0]}
     else:
         a = None
+    inner_names = []
+    if rng.random() < 0.3:
+        # a load balancer among the members of the load balancer: the laws hold at each level, and the record names the
+        # connector that finally carried the connection
+        inner_members = []
+        for k in range(rng.randint(1, 3)):
+            ci = sc.add_http_connector("i%d" % k)
+            ci["server"]["default_ops"] = [op("recv_http_head", label="upreq"), send(b"HTTP/1.1 200 OK\r\n\r\n"), op("shutdown"), op("recv_eof", timeout_ms=30000)]
+            inner_members.append(ci)
+            inner_names.append("i%d" % k)
+        inner = sc.add_loadbalance("inner", inner_members, a)
+        members.insert(rng.randint(0, len(members)), inner)
+        n += 1
     sc.add_loadbalance("lb", members, a)
     l1 = sc.add_http_listener("l-one")
     l2 = sc.add_http_listener("l-two")
@@ -89,7 +102,7 @@ def gen(rng, tier, i):
         t += 400  # the next burst starts only after this one is long finished
     sc.api_call("hist", "GET", "/api/history", start_ms=t + 3000)
     sc.meta = {"cls": "%s/n%d/%s" % (algo, n, mode), "cfgkey": "%s/n%d/%s/%s/%d" % (algo, n, mode, key and key[1], total), "algo": algo, "n": n, "reqs": reqs,
-               "key": key and key[1], "bursts": burst_sizes, "keep_ops": True}
+               "key": key and key[1], "bursts": burst_sizes, "keep_ops": True, "inner": inner_names}
     sc.max_ms = t + 60000
     return sc.plan(want_events=False)
 
@@ -131,10 +144,11 @@ def oracle(plan, out):
         if len(who) != 1:
             v("not-exactly-one-member", "request q%d -> %s:%d was served by %s" % (q["k"], q["host"], q["port"], who))
             continue
-        if who[0] == "up-decoy" or not who[0].startswith("up-m"):
+        if who[0] == "up-decoy" or not (who[0].startswith("up-m") or who[0][3:] in meta.get("inner", [])):
             v("non-member-selected", "request q%d was sent to %s which is not a member of the load balancer" % (q["k"], who[0]))
             continue
-        q["member"] = who[0][3:]
+        q["leaf"] = who[0][3:]
+        q["member"] = "inner" if q["leaf"] in meta.get("inner", []) else q["leaf"]
         seq.append(q)
     # recorded connector = member used
     hist = R.history("hist")
@@ -146,8 +160,8 @@ def oracle(plan, out):
                 except (ValueError, IndexError):
                     continue
                 q = [x for x in seq if x["port"] == port]
-                if q and h.get("connector") != q[0]["member"]:
-                    v("recorded-member-differs", "request to port %d used member %s but the record says connector=%s" % (port, q[0]["member"], h.get("connector")))
+                if q and h.get("connector") != q[0]["leaf"]:
+                    v("recorded-member-differs", "request to port %d used member %s but the record says connector=%s" % (port, q[0]["leaf"], h.get("connector")))
         except ValueError:
             pass
     if algo == "rr" and n >= 1:
@@ -179,15 +193,24 @@ def oracle(plan, out):
                 cnt[q["member"]] = cnt.get(q["member"], 0) + 1
             if sorted(cnt.values()) != [total // n] * n:
                 v("rr-unbalanced-total", "%d requests over %d members were distributed %s" % (total, n, cnt))
+        inner = meta.get("inner", [])
+        if inner and len(seq) == len(meta["reqs"]):
+            sub = [q["leaf"] for q in seq if q["member"] == "inner"]
+            if sub and len(sub) % len(inner) == 0:
+                cnt = {}
+                for x in sub:
+                    cnt[x] = cnt.get(x, 0) + 1
+                if sorted(cnt.values()) != [len(sub) // len(inner)] * len(inner):
+                    v("rr-unbalanced-total", "%d selections of the nested balancer over its %d members were distributed %s" % (len(sub), len(inner), cnt))
     elif algo == "hash":
         keyf = {"src": lambda q: q["src"], "host": lambda q: q["host"], "listener": lambda q: q["listener"], "src+host": lambda q: (q["src"], q["host"])}[meta["key"]]
         m = {}
         for q in seq:
             k = keyf(q)
-            if k in m and m[k] != q["member"]:
-                v("hash-unstable", "key %s was sent to %s and to %s" % (k, m[k], q["member"]))
+            if k in m and m[k] != q["leaf"]:
+                v("hash-unstable", "key %s was sent to %s and to %s" % (k, m[k], q["leaf"]))
                 break
-            m[k] = q["member"]
+            m[k] = q["leaf"]
     elif algo == "random":
         hit = set(q["member"] for q in seq)
         if len(seq) >= 400 and len(hit) != n:
@@ -197,4 +220,4 @@ def oracle(plan, out):
 
 def probes(plan, out):
     meta = plan["meta"]
-    return {"nontrivial": meta["n"] >= 2 and len(meta["reqs"]) >= 2 * meta["n"], "concurrent_burst": any(b > 1 for b in meta["bursts"]), "hash": meta["algo"] == "hash", "random": meta["algo"] == "random"}
+    return {"nontrivial": meta["n"] >= 2 and len(meta["reqs"]) >= 2 * meta["n"], "concurrent_burst": any(b > 1 for b in meta["bursts"]), "hash": meta["algo"] == "hash", "random": meta["algo"] == "random", "nested": bool(meta.get("inner"))}
